@@ -57,10 +57,20 @@ func behave(t *f1testing.T, k int) {
 		_ = s[k]
 	case 17:
 		panic(17)
+	case 18:
+		panic(fieldErrors{"a", "b"}) // error value of a non-comparable dynamic type
+	case 19:
+		panic(map[string]int{"x": 1})
+	case 20:
+		panic(struct{ xs []int }{[]int{1}})
 	}
 }
 
-const nkinds = 18
+type fieldErrors []string
+
+func (f fieldErrors) Error() string { return "invalid fields" }
+
+const nkinds = 21
 
 func TestC07Runs(t *testing.T) {
 	o := kit.Get()
